@@ -136,8 +136,7 @@ func VH_C20_DaisyChain() {
 	seenFar := vhDCCount(calls, "far:")
 	n1, n2 := vhDCCount(calls, "b1:"), vhDCCount(calls, "b2:")
 	verifrt.Observe("daisy", uint64(mode), uint64(seenFar), uint64(n1), uint64(n2), uint64(v1), uint64(v2))
-	verifrt.Assert(seenFar <= 1 && n1+n2 <= 1, "D:message-handled-at-most-once-per-node")
-	accepted := (n1 == 1 && v1 == gexchange.FeedbackAccepted) || (n2 == 1 && v2 == gexchange.FeedbackAccepted)
+	accepted := (n1 >= 1 && v1 == gexchange.FeedbackAccepted) || (n2 >= 1 && v2 == gexchange.FeedbackAccepted)
 	verifrt.Assert(verifrt.Implies(seenFar > 0, accepted), "D:relayed-only-if-the-middle-handler-accepted-it")
 	if seenFar > 0 {
 		verifrt.Reach("daisy:relayed")
